@@ -1147,7 +1147,8 @@ Section Job.
 
   Lemma record_spec ex f w sf before rc stdout has_tmp :
     ~ In f ex -> JINV w (f :: ex) -> PROJ w -> watched (nm w f) = false -> reserved (nm w f) = false ->
-    sf = ldw w f -> own_row w ex f -> GOODF w (f :: ex) f (fun _ => False) ->
+    sf = ldw w f -> own_row w ex f ->
+    (snd (record_new_state R (nm w f) f sf before rc stdout has_tmp w) = 0%Z -> GOODF w (f :: ex) f (fun _ => False)) ->
     let w' := fst (record_new_state R (nm w f) f sf before rc stdout has_tmp w) in
     let rv := snd (record_new_state R (nm w f) f sf before rc stdout has_tmp w) in
     jstep (f :: ex) ex w w' /\ leave_ok w' ex f /\ (rv = 0%Z -> ok w' ex f).
@@ -1160,6 +1161,7 @@ Section Job.
     destruct (Hx f Vf) as (X1 & X2 & _ & _ & _). destruct (Hb f Vf) as [B1 B2].
     destruct (Z.eq_dec (snd (record_new_state R t f sf before rc stdout has_tmp w)) 0) as [E0|E0].
     - (* success *)
+      specialize (Hg E0).
       rewrite (record_success t f sf before rc stdout has_tmp w E0).
       set (wi := install t stdout has_tmp w).
       set (fin := final_row wi t (load R (dbs w) f)).
@@ -1240,6 +1242,299 @@ Section Job.
       unfold noov_at. rewrite Hrow, Hnm'. split; [exact G2|].
       intro Hgn. destruct (G7 Hgn) as (s0 & T1 & T2). exists s0. split; [exact T1|left].
       unfold read_stamp in *. rewrite Fs. exact T2.
+  Qed.
+
+  (* ---------------------------------------------------------------- a whole job, seen from outside *)
+  Lemma job_wrap ex f w w' :
+    JINV w ex -> valid w f -> watched (nm w f) = false -> ~ In f ex -> ~ ok w ex f ->
+    jstep (f :: ex) ex w w' -> leave_ok w' ex f -> jstep ex ex w w'.
+  Proof.
+    intros Hj Hv Hwt Hf Hn (Jn & Jw & Jj & Jm & Jf) [L1 L2].
+    split; [exact Jn|]. split; [exact Jw|]. split; [apply (JINV_leave w' ex f Jj L1 L2)|]. split; [|exact Jf].
+    intros g Hg. apply (ok_ex_shrink w' ex f). apply Jm. apply ok_ex_grow; assumption.
+  Qed.
+
+  Lemma own_put ex f w r' :
+    ~ In f ex -> JINV w (f :: ex) -> r_name r' = nm w f ->
+    (forall c, r_checked r' = Some c -> (c <= R)%Z) -> (forall c, r_changed r' = Some c -> (c <= R)%Z) ->
+    r_csum r' = None -> (r_stamp r' <> None -> r_changed r' <> None) ->
+    (marked (view_row R r') = true -> r_failed r' = None \/ r_failed r' = Some R) ->
+    jstep (f :: ex) ex w (putw w f r') /\ get_row (dbs (putw w f r')) f = r' /\ nm (putw w f r') f = nm w f.
+  Proof.
+    intros Hf Hj Hname Hb1 Hb2 Hcs Hsc Hmf. assert (Hfin : In f (f :: ex)) by now left.
+    pose proof Hj as (_ & _ & _ & Hu). destruct (Hu f Hfin) as [Vf _].
+    destruct (putex_JINV w (f :: ex) f r' Hj Hfin Hname Hb1 Hb2 Hcs Hsc Hmf) as [J M].
+    pose proof (putw_names w f r' Hname) as Hnm.
+    split; [|split; [apply get_row_putw_same; exact Vf|exact (nm_names w _ f Hnm)]].
+    split; [exists []; rewrite Hnm; now rewrite app_nil_r|]. split; [split; [reflexivity|intros n _; reflexivity]|]. split; [exact J|]. split; [exact M|].
+    intros x Hx. assert (Hne : x <> f) by (intro X; subst x; contradiction).
+    destruct (Hu x (or_intror Hx)) as [Vx _]. split; [apply get_row_putw_other; assumption|]. intros d _. tauto.
+  Qed.
+
+  Lemma leaf_ok w ex f :
+    valid w f -> ~ In f ex -> is_alw w f = false -> rowbase R w f ->
+    (r_gen (ldw w f) = false \/ r_ovr (ldw w f) = true) -> ok w ex f.
+  Proof.
+    intros Hv Hex Ha Hb Hl.
+    assert (Hd : deps_of (dbs w) (ldw w f) f = []).
+    { unfold deps_of. destruct Hl as [E|E]; rewrite E; [rewrite orb_true_r|]; reflexivity. }
+    apply ok_intro; auto. rewrite Hd. intros d [].
+  Qed.
+
+  (* the job ends at once: the file is there and is not ours (a source) *)
+  Lemma static_exit ex f w :
+    ~ In f ex -> JINV w (f :: ex) -> reserved (nm w f) = false ->
+    let w' := putw w f (set_static R w (ldw w f)) in
+    jstep (f :: ex) ex w w' /\ leave_ok w' ex f /\ ok w' ex f.
+  Proof.
+    intros Hf Hj Hres. cbv zeta. assert (Hfin : In f (f :: ex)) by now left.
+    pose proof Hj as (((_ & _ & Hb) & _) & Hx & _ & Hu). destruct (Hu f Hfin) as [Vf _].
+    assert (Ha : is_alw w f = false) by (apply not_reserved_not_alw; exact Hres).
+    assert (Hld : ldw w f = get_row (dbs w) f) by (apply ld_not_alw; exact Ha).
+    destruct (Hx f Vf) as (X1 & X2 & _). destruct (Hb f Vf) as [B1 B2].
+    destruct (set_static_facts w (ldw w f)) as (S1 & S2 & S3 & S4 & S5 & S6 & (s0 & S7 & S8) & S9).
+    set (r' := set_static R w (ldw w f)) in *.
+    assert (Hname : r_name r' = nm w f) by (rewrite S1; apply ld_name).
+    assert (Hch : exists chg, r_changed r' = Some chg /\ (chg <= R)%Z).
+    { destruct S9 as [[E Hn]|E].
+      - destruct (r_changed (ldw w f)) as [c|] eqn:Ec.
+        + exists c. split; [exact E|]. apply B2. rewrite <- Hld. exact Ec.
+        + exfalso. rewrite Hld in Hn, Ec. exact (X2 Hn Ec).
+      - exists R. split; [exact E|lia]. }
+    destruct Hch as (chg & Hc & Hle).
+    destruct (own_put ex f w r' Hf Hj Hname) as (J & Hrow & Hnm'); auto.
+    { intros c Hc'. rewrite S6, Hld in Hc'. apply B1. exact Hc'. }
+    { intros c Hc'. rewrite Hc in Hc'. injection Hc' as <-. exact Hle. }
+    { intros _. rewrite Hc. discriminate. }
+    set (w' := putw w f r') in *.
+    assert (Ha' : is_alw w' f = false) by (unfold is_alw; rewrite Hnm'; exact Ha).
+    assert (Hld' : ldw w' f = r') by (rewrite (ld_not_alw R w' f Ha'); exact Hrow).
+    assert (Hok : ok w' ex f).
+    { apply leaf_ok; auto.
+      - destruct J as (_ & _ & (_ & _ & _ & Hu') & _). exact (proj1 (Hu' f Hfin)).
+      - unfold rowbase. rewrite Hld'. split; [exact S4|]. split; [exists chg; auto|]. exists s0. split; [exact S7|].
+        rewrite Hname. rewrite ld_name in S8. exact S8.
+      - left. rewrite Hld'. exact S2. }
+    split; [exact J|]. split; [|exact Hok]. split; [intros _ _; exact Hok|].
+    unfold noov_at. rewrite Hrow. split; [exact S3|]. intro X. rewrite S2 in X. discriminate.
+  Qed.
+
+  Lemma set_failed_facts w r :
+    r_ovr r = false ->
+    let r' := set_failed R w r in
+    r_name r' = r_name r /\ r_ovr r' = false /\ r_failed r' = Some R /\ r_csum r' = r_csum r /\
+    r_checked r' = r_checked r /\
+    (r_changed r' = r_changed r /\ r_stamp r <> None \/ r_changed r' = Some R) /\
+    (r_gen r' = true -> exists s, r_stamp r' = Some s /\ stamp_eqb s (read_stamp w (r_name r)) = true).
+  Proof.
+    intro Hov. cbv zeta. unfold set_failed. cbv zeta.
+    destruct (update_stamp_facts w r) as (U1 & U2 & U3 & U4 & (s0 & U5 & U6) & U7).
+    cbn [upd_row r_name r_ovr r_failed r_csum r_checked r_changed r_gen r_stamp].
+    split; [exact U1|]. split.
+    { destruct U7 as [[E _]|(_ & O & _)]; [rewrite E; exact Hov|exact O]. }
+    split; [reflexivity|]. split; [exact U4|]. split; [exact U3|]. split.
+    { destruct U7 as [[E Hn]|(C & _ & _)]; [left; rewrite E; auto|right; exact C]. }
+    intros _. exists s0. auto.
+  Qed.
+
+  (* the job ends at once: no rule, and no file either *)
+  Lemma failed_exit ex f w :
+    ~ In f ex -> JINV w (f :: ex) -> reserved (nm w f) = false -> r_ovr (ldw w f) = false ->
+    let w' := putw w f (set_failed R w (ldw w f)) in
+    jstep (f :: ex) ex w w' /\ leave_ok w' ex f.
+  Proof.
+    intros Hf Hj Hres Hov. cbv zeta. assert (Hfin : In f (f :: ex)) by now left.
+    pose proof Hj as (((_ & _ & Hb) & _) & Hx & _ & Hu). destruct (Hu f Hfin) as [Vf _].
+    assert (Ha : is_alw w f = false) by (apply not_reserved_not_alw; exact Hres).
+    assert (Hld : ldw w f = get_row (dbs w) f) by (apply ld_not_alw; exact Ha).
+    destruct (Hx f Vf) as (X1 & X2 & _). destruct (Hb f Vf) as [B1 B2].
+    destruct (set_failed_facts w (ldw w f) Hov) as (G1 & G2 & G3 & G4 & G5 & G6 & G7).
+    set (fr := set_failed R w (ldw w f)) in *.
+    assert (Hname : r_name fr = nm w f) by (rewrite G1; apply ld_name).
+    assert (S4 : forall c, r_checked fr = Some c -> (c <= R)%Z) by (intros c Hc'; rewrite G5, Hld in Hc'; apply B1; exact Hc').
+    assert (S5 : forall c, r_changed fr = Some c -> (c <= R)%Z).
+    { intros c Hc'. destruct G6 as [[G6 _]|G6]; rewrite G6 in Hc'; [rewrite Hld in Hc'; apply B2; exact Hc'|injection Hc' as <-; lia]. }
+    assert (S6 : r_stamp fr <> None -> r_changed fr <> None).
+    { intro Hs. destruct G6 as [[G6 Hn]|G6]; rewrite G6; [|discriminate]. rewrite Hld. apply X2. rewrite <- Hld. exact Hn. }
+    assert (S7 : marked (view_row R fr) = true -> r_failed fr = None \/ r_failed fr = Some R) by (intros _; right; exact G3).
+    assert (S8 : r_csum fr = None) by (rewrite G4, Hld; exact X1).
+    destruct (own_put ex f w fr Hf Hj Hname S4 S5 S8 S6 S7) as (J & Hrow & Hnm').
+    set (w' := putw w f fr) in *.
+    assert (Ha' : is_alw w' f = false) by (unfold is_alw; rewrite Hnm'; exact Ha).
+    assert (Hld' : ldw w' f = fr) by (rewrite (ld_not_alw R w' f Ha'); exact Hrow).
+    split; [exact J|]. split; [intros _ Hfl; rewrite Hld', G3 in Hfl; discriminate|].
+    unfold noov_at. rewrite Hrow, Hnm'. split; [exact G2|].
+    intro Hgn. destruct (G7 Hgn) as (s0 & T1 & T2). exists s0. split; [exact T1|left]. rewrite ld_name in T2. exact T2.
+  Qed.
+
+  (* the job touches its own files (the target, $3) *)
+  Lemma own_fs_step ex f w w1 :
+    JINV w (f :: ex) -> PROJ w -> watched (nm w f) = false ->
+    dbs w1 = dbs w -> updepth w1 = updepth w ->
+    (forall m, m <> nm w f -> m <> tmp_of (nm w f) -> fs_get (fs w1) m = fs_get (fs w) m) ->
+    jstep (f :: ex) (f :: ex) w w1.
+  Proof.
+    intros Hj (Pw & _) Hwt Hdb Hup Hfs. assert (Hfin : In f (f :: ex)) by now left.
+    destruct (fs_step_JINV w w1 (f :: ex) f Hj Hfin Hdb) as [J M].
+    { intros n Hn. unfold own_files in Hn. apply orb_false_iff in Hn as [N1 N2]. apply Hfs.
+      - intro X. subst n. rewrite bytes_eqb_refl in N1. discriminate.
+      - intro X. subst n. rewrite bytes_eqb_refl in N2. discriminate. }
+    split; [exists []; unfold names; rewrite Hdb; now rewrite app_nil_r|]. split.
+    { split; [exact Hup|]. intros n Hn. apply Hfs.
+      - intro X. subst n. congruence.
+      - intro X. subst n. pose proof (Pw _ Hn) as Y. rewrite reserved_tmp_of in Y. discriminate. }
+    split; [exact J|]. split; [exact M|]. intros x _. split; [now rewrite Hdb|]. intros d _. now rewrite Hdb.
+  Qed.
+
+  (* ================================================================ commands, by induction on the nesting depth *)
+  Definition tgt_ok (w : world) (ex : list fid) (t : name) : Prop :=
+    watched t = false /\ reserved t = false /\ forall x, In x ex -> (rk t < rkf rk w x)%nat.
+
+  Definition nested (e : env) (exl : list fid) (ts : list name) (w : world) (me : name) (mf : fid) (ex : list fid) : Prop :=
+    e_target e = Some me /\ e_unlocked e = false /\ e_no_oob e = false /\ exl = mf :: ex /\ ~ In mf ex /\
+    find_row (rows (dbs w)) me 1 = Some mf /\ (forall t, In t ts -> (rk t < rk me)%nat).
+
+  Definition front_post (e : env) (exl : list fid) (ts : list name) (w wa : world) : Prop :=
+    match e_target e with
+    | None => wa = w
+    | Some me => forall mf ex, exl = mf :: ex ->
+        jstep exl ex w wa /\ extends w wa /\
+        forall P : fid -> Prop, GOODF w exl mf P ->
+          GOODF wa exl mf (fun x => P x \/ exists t, In t ts /\ find_row (rows (dbs wa)) t 1 = Some x)
+    end.
+
+  Definition build_post (e : env) (exl : list fid) (ts : list name) (w w' : world) (rc : Z) : Prop :=
+    exists wa, front_post e exl ts w wa /\ jstep exl exl wa w' /\
+      (rc = 0%Z -> forall t, In t ts -> exists g, find_row (rows (dbs w')) t 1 = Some g /\ ok w' exl g).
+
+  Definition build_pre (e : env) (exl : list fid) (ts : list name) (w : world) : Prop :=
+    e_runid e = R /\ JINV w exl /\ PROJ w /\ (forall t, In t ts -> tgt_ok w exl t) /\
+    (e_target e = None \/ exists me mf ex, nested e exl ts w me mf ex).
+
+  Definition rec_spec (rec : rec_t) : Prop :=
+    forall e exl ts w w' evs rc,
+      build_pre e exl ts w -> rec e MIfChange ts w = Ret (w', evs, rc) -> build_post e exl ts w w' rc.
+
+  Lemma status_of_zero before after rc so ht : status_of before after rc so ht = 0%Z -> rc = 0%Z.
+  Proof.
+    unfold status_of. destruct (modified_b before after); [discriminate|].
+    destruct (ht && match so with Some _ => true | None => false end); [discriminate|auto].
+  Qed.
+
+  Lemma script_body_plain rec envc t sc w w' evs rc out :
+    plain sc -> script_body rec envc t sc w = Ret (w', evs, rc, out) ->
+    exists rc_deps,
+      match s_deps sc with
+      | [] => w' = w /\ rc_deps = 0%Z
+      | _ :: _ => exists e1, rec envc MIfChange (s_deps sc) w = Ret (w', e1, rc_deps)
+      end /\ (rc_deps <> 0%Z -> rc <> 0%Z).
+  Proof.
+    intros (Ht & Ha & Hs & Hi) H. unfold script_body in H. rewrite Ht, Ha, Hs, Hi in H. cbn [ifcreate_cmd] in H.
+    destruct (s_deps sc) as [|d0 ds] eqn:Ed.
+    - cbn [Z.eqb negb andb] in H. exists 0%Z. split; [|intro X; contradiction]. cbn in H.
+      destruct (s_cat sc); injection H as <- _ _ _; auto.
+    - destruct (rec envc MIfChange (d0 :: ds) w) as [[[w1 e1] rc1]|] eqn:E; [|discriminate].
+      exists rc1. rewrite andb_true_r in H. destruct (Z.eqb rc1 0) eqn:E0; cbn [negb] in H.
+      + apply Z.eqb_eq in E0. subst rc1. cbn [Z.eqb negb] in H.
+        split; [|intro X; contradiction].
+        destruct (if s_cat sc then concat_data w1 (d0 :: ds) else Some []); injection H as <- _ _ _; exists e1; reflexivity.
+      + injection H as <- _ <- _. split; [exists e1; reflexivity|]. intros _. apply Z.eqb_neq. exact E0.
+  Qed.
+
+  Lemma jstep_row ex fr w w' f : In f fr -> jstep ex fr w w' -> get_row (dbs w') f = get_row (dbs w) f.
+  Proof. intros Hf (_ & _ & _ & _ & H). exact (proj1 (H f Hf)). Qed.
+
+  Lemma jstep_nm ex fr w w' g : jstep ex fr w w' -> valid w g -> nm w' g = nm w g.
+  Proof. intros (Hn & _) [A B]. unfold nm. apply NAMES_get_row; [exact Hn|lia]. Qed.
+
+  Lemma tgt_ok_jstep ex fr w w' t : JINV w ex -> jstep ex fr w w' -> tgt_ok w ex t -> tgt_ok w' ex t.
+  Proof.
+    intros (_ & _ & _ & Hu) J (A & B & C). split; [exact A|]. split; [exact B|].
+    intros x Hx. unfold rkf. rewrite (jstep_nm ex fr w w' x J (proj1 (Hu x Hx))). apply C. exact Hx.
+  Qed.
+
+  Lemma emit_output_fs t m out w :
+    let w1 := fst (fst (emit_output t m out w)) in
+    dbs w1 = dbs w /\ updepth w1 = updepth w /\
+    forall n, n <> t -> n <> tmp_of t -> fs_get (fs w1) n = fs_get (fs w) n.
+  Proof.
+    cbv zeta. unfold emit_output. destruct out as [c|]; [|cbn; auto].
+    destruct m; cbn [fst]; rewrite ?dbs_write_file; (split; [reflexivity|split; [reflexivity|]]);
+      intros n H1 H2; rewrite ?get_write_other by congruence; reflexivity.
+  Qed.
+
+  (* the .do file's row is marked as a source (set_static) *)
+  Lemma dorow_step ex f w s :
+    JINV w (f :: ex) -> PROJ w -> valid w s -> watched (nm w s) = true ->
+    let w2 := putw w s (set_static R w (ldw w s)) in
+    jstep (f :: ex) (f :: ex) w w2 /\ ok w2 (f :: ex) s /\ fs w2 = fs w /\ deps (dbs w2) = deps (dbs w) /\
+    names (dbs w2) = names (dbs w).
+  Proof.
+    intros Hj (Pw & _) Vs Ws. cbv zeta.
+    pose proof Hj as (((_ & _ & Hb) & _) & Hx & _ & Hu).
+    assert (Hres : reserved (nm w s) = false) by (apply Pw; exact Ws).
+    assert (Ha : is_alw w s = false) by (apply not_reserved_not_alw; exact Hres).
+    assert (Hld : ldw w s = get_row (dbs w) s) by (apply ld_not_alw; exact Ha).
+    assert (Hex : ~ In s (f :: ex)) by (intro X; destruct (Hu s X) as [_ Y]; congruence).
+    destruct (Hx s Vs) as (X1 & X2 & _). destruct (Hb s Vs) as [B1 B2].
+    destruct (set_static_facts w (ldw w s)) as (S1 & S2 & S3 & S4 & S5 & S6 & (s0 & S7 & S8) & S9).
+    set (r' := set_static R w (ldw w s)) in *.
+    assert (Hname : r_name r' = nm w s) by (rewrite S1; apply ld_name).
+    assert (Hch : exists chg, r_changed r' = Some chg /\ (chg <= R)%Z).
+    { destruct S9 as [[E Hn]|E].
+      - destruct (r_changed (ldw w s)) as [c|] eqn:Ec.
+        + exists c. split; [exact E|]. apply B2. rewrite <- Hld. exact Ec.
+        + exfalso. rewrite Hld in Hn, Ec. exact (X2 Hn Ec).
+      - exists R. split; [exact E|lia]. }
+    destruct (settle_leaf w (f :: ex) s r' Hj Vs Hex Hres Hname S2 S3 S4 S5) as (J & M & Hok).
+    { intros c Hc'. rewrite S6, Hld in Hc'. apply B1. exact Hc'. }
+    { exact Hch. }
+    { exists s0. split; [exact S7|]. rewrite ld_name in S8. exact S8. }
+    pose proof (putw_names w s r' Hname) as Hnm.
+    split; [|split; [exact Hok|split; [reflexivity|split; [reflexivity|exact Hnm]]]].
+    split; [exists []; rewrite Hnm; now rewrite app_nil_r|]. split; [split; [reflexivity|intros n _; reflexivity]|].
+    split; [exact J|]. split; [exact M|].
+    intros x Hx'. assert (Hne : x <> s) by (intro X; subst x; contradiction).
+    destruct (Hu x Hx') as [Vx _]. split; [apply get_row_putw_other; assumption|]. intros d _. tauto.
+  Qed.
+
+  (* the script: its redo-ifchange, nothing else that touches the state *)
+  Lemma script_step rec envc ex f t sc w w3 evs rc out :
+    rec_spec rec ->
+    e_runid envc = R -> e_target envc = Some t -> e_unlocked envc = false -> e_no_oob envc = false ->
+    ~ In f ex -> JINV w (f :: ex) -> PROJ w -> tgt_ok w ex t -> nm w f = t ->
+    find_row (rows (dbs w)) t 1 = Some f ->
+    plain sc -> (forall d, In d (s_deps sc) -> watched d = false /\ reserved d = false /\ (rk d < rk t)%nat) ->
+    GOODF w (f :: ex) f (fun _ => False) ->
+    script_body rec envc t sc w = Ret (w3, evs, rc, out) ->
+    jstep (f :: ex) ex w w3 /\ get_row (dbs w3) f = get_row (dbs w) f /\
+    (rc = 0%Z -> GOODF w3 (f :: ex) f (fun _ => False)).
+  Proof.
+    intros Hrec E1 E2 E3 E4 Hf Hj Hp (Tw & Tr & Tk) Hnm Hfr Hpl Hds Hg H.
+    destruct (script_body_plain rec envc t sc w w3 evs rc out Hpl H) as (rcd & Hm & Hrc).
+    assert (Hfin : In f (f :: ex)) by now left.
+    pose proof Hj as (_ & _ & _ & Hu). destruct (Hu f Hfin) as [Vf _].
+    destruct (s_deps sc) as [|d0 ds] eqn:Ed.
+    - destruct Hm as [-> _]. split; [apply jstep_refl; exact Hj|]. split; [reflexivity|intros _; exact Hg].
+    - destruct Hm as (e1 & Hm). rewrite <- Ed in Hm, Hds.
+      assert (Hpre : build_pre envc (f :: ex) (s_deps sc) w).
+      { split; [exact E1|]. split; [exact Hj|]. split; [exact Hp|]. split.
+        - intros d Hd. destruct (Hds d Hd) as (A & B & C). split; [exact A|]. split; [exact B|].
+          intros x [<-|Hx]; [unfold rkf; rewrite Hnm; exact C|]. specialize (Tk x Hx). lia.
+        - right. exists t, f, ex. split; [exact E2|]. split; [exact E3|]. split; [exact E4|]. split; [reflexivity|].
+          split; [exact Hf|]. split; [exact Hfr|]. intros d Hd. exact (proj2 (proj2 (Hds d Hd))). }
+      destruct (Hrec envc (f :: ex) (s_deps sc) w w3 e1 rcd Hpre Hm) as (wa & Hfront & Jrun & Hok).
+      unfold front_post in Hfront. rewrite E2 in Hfront. destruct (Hfront f ex eq_refl) as (Jf & Ext & Hgf).
+      pose proof Jf as (_ & _ & Ja & _).
+      split; [eapply jstep_trans; [exact Jf|]; eapply jstep_weaken; [|exact Jrun]; intros x Hx; now right|].
+      split.
+      { rewrite (jstep_row (f :: ex) (f :: ex) wa w3 f Hfin Jrun). destruct Ext as (_ & _ & _ & Hr). apply Hr. exact Vf. }
+      intro Hrc0. assert (Hrcd : rcd = 0%Z) by (destruct (Z.eq_dec rcd 0) as [X|X]; [exact X|exfalso; exact (Hrc X Hrc0)]).
+      specialize (Hok Hrcd). specialize (Hgf _ Hg).
+      pose proof (GOODF_jstep wa w3 (f :: ex) (f :: ex) f _ Hfin Ja Jrun Hgf) as Hg3.
+      eapply GOODF_weaken; [|exact Hg3]. intros x [[]|(d & Hd & Hfx)].
+      left. destruct (Hok d Hd) as (g & Hfg & Hokg).
+      destruct Jrun as (Jn & _). pose proof (NAMES_find wa w3 d x Jn Hfx) as Hfx3. rewrite Hfx3 in Hfg. injection Hfg as <-. exact Hokg.
   Qed.
 
   (* ---------------------------------------------------------------- a check that does not answer "clean" *)
